@@ -17,8 +17,11 @@ func findFeatures(featureNames []string) ([]Feature, error) {
 	required := make(map[string]Feature)
 	for _, name := range featureNames {
 		if name == "all" {
-			required = defaultFeatures
-			break
+			// every feature; the remaining names are still checked
+			for n, f := range defaultFeatures {
+				required[n] = f
+			}
+			continue
 		}
 
 		feat, ok := defaultFeatures[name]
